@@ -16,6 +16,8 @@ MUTANTS += [
     ('ring creates a pulse at its own first end', [(G, "if self.idx_1 != 0 and abs (self.idx_1) - 1 != self.n:", "if self.idx_1 != 0:")], ['site-kinds']),
     ('self connection not deducted from the prediction', [(G, "            npulse -= 1\n", "            npulse -= 0\n")], ['end_segs[1]']),
     ('pulse counter read after the first creations', [(G, "        self.end_segs [1] = parent.pulses.pulse_idx + npulse\n", "        pass\n"), (G, "        # Connection to other geo object(s) at end 2\n", "        self.end_segs [1] = parent.pulses.pulse_idx + npulse\n")], []),
+    ('ground test by exact zero', [('mininec.Geobj.compute_ground', "self.is_ground = (abs (self.p1 [-1]) < eps, abs (self.p2 [-1]) < eps)", "self.is_ground = (self.p1 [-1] == 0, self.p2 [-1] == 0)")], ['ground-test']),
+    ('ground test of end 2 on end 1', [('mininec.Geobj.compute_ground', "self.is_ground = (abs (self.p1 [-1]) < eps, abs (self.p2 [-1]) < eps)", "self.is_ground = (abs (self.p1 [-1]) < eps, abs (self.p1 [-1]) < eps)")], ['ground-test']),
 ]
 REFACTORS = [
     ('dead increment after the last creation dropped', [(G, "                p._c_per [0] = 0\n            p.n = pc\n            pc += 1\n            self.pulses.append (p)", "                p._c_per [0] = 0\n            p.n = pc\n            self.pulses.append (p)")]),
